@@ -128,6 +128,9 @@ def gen_template(rng, nl="\n"):
             for m in ms:
                 if rng.random() < 0.3:
                     b.add(rng.choice(["", "", "    ", "\t"]))
+                if rng.random() < 0.3:
+                    # an ordinary Python comment (it begins with a letter that occurs in the tag): never a translator comment
+                    b.add("    # " + rng.choice(["Totally unrelated note", "Regular remark", "S: no tag", "Also nothing", "note"]))
                 fn, c = b.call(m)
                 b.pending_comment = pend          # every message of the block carries the comment
                 b.expect(b.lineno, fn, m, construct_line=cl); b.add("    v = " + c)
@@ -183,10 +186,10 @@ def fix_expected(b):
     return b.expected
 
 
-def run_babel(src_bytes, encoding):
+def run_babel(src_bytes, encoding, option="encoding"):
     from babel.messages.extract import DEFAULT_KEYWORDS
     from mako.ext import babelplugin
-    opts = {"encoding": encoding} if encoding else {}
+    opts = {option: encoding} if encoding else {}
     return [(l, f, norm_messages(m), list(c)) for l, f, m, c in babelplugin.extract(io.BytesIO(src_bytes), DEFAULT_KEYWORDS, [TAG], opts)]
 
 
@@ -307,6 +310,16 @@ def run(ctx):
                         ctx.violation({"source": src2, "bytes_encoded_as": comment_enc, "configured_encoding": opt, "reported": repr(got2)[:400], "expected": repr(shifted)[:400]},
                                       "with the source encoding declared by a magic comment the Babel extractor reports different messages", tags=["c20.encoding.magic-comment"])
                         break
+            # the documented option of the plugin is input_encoding: alone it must do what encoding does
+            if encoding and encoding != "utf-8":
+                ctx.evaluations += 1
+                try:
+                    got_ie = run_babel(src_bytes, encoding, option="input_encoding")
+                except Exception as e:  # noqa
+                    got_ie = "raised %s: %s" % (type(e).__name__, str(e)[:100])
+                if got_ie != got:
+                    ctx.violation({"source": src, "bytes_encoded_as": encoding, "options": {"input_encoding": encoding}, "reported": repr(got_ie)[:400], "with_encoding_option": repr(got)[:400]},
+                                  "configured with input_encoding alone the Babel extractor does not report what it reports with encoding", tags=["c20.encoding.input_encoding-option"])
             want = [(l, f, norm_messages(m), c) for l, f, m, c, known in b.expected if not known]
             want_known = [(l, f, norm_messages(m), c, known) for l, f, m, c, known in b.expected if known]
             kinds["constructs"] = kinds.get("constructs", 0) + len(b.expected)
